@@ -53,23 +53,25 @@ Proof.
   - rewrite utf8_app. apply in_or_app. right. left. reflexivity.
 Qed.
 
-Theorem sent_type_has_dot unsafe e s : get_state unsafe e = Ok s -> In 46 (e_type e) -> In type_name_separator (s_type s).
+Theorem sent_type_has_dot unsafe e s ty : get_state unsafe e = Ok s -> e_type e = Ok ty -> In 46 ty -> In type_name_separator (s_type s).
 Proof.
-  intros G I. destruct (failure_fits unsafe e) as (s' & G' & _ & _ & FT & _). rewrite G in G'. inversion G'; subst s'.
+  intros G HT I. destruct (nameable_inv e (get_state_ok_nameable _ _ _ G)) as (ty' & pa & HT' & HP).
+  rewrite HT in HT'. inversion HT'; subst ty'.
+  destruct (failure_fits unsafe e ty pa HT HP) as (s' & G' & _ & _ & FT & _). rewrite G in G'. inversion G'; subst s'.
   apply (field_has_dot _ _ _ (in_escape 46 _ ltac:(lia) I) FT).
 Qed.
 
 (* C10_relay_end_to_end: for EVERY exception of a class with a qualified name, both tracebacks settings at C and at B and
    both expose settings at A: the relayed report reaches A's Deferred (B's slicer does not raise, A's FailureConstraint
    accepts), and A sees the type name, the message and the ancestry that C sent *)
-Theorem relay_end_to_end unsafe_c unsafe_b expose_a e : In 46 (e_type e) ->
+Theorem relay_end_to_end unsafe_c unsafe_b expose_a e ty pa : e_type e = Ok ty -> e_parents e = Ok pa -> In 46 ty ->
   exists s, get_state unsafe_c e = Ok s /\
     relayed_report unsafe_c unsafe_b expose_a e = Ok (deliver expose_a (relay_state unsafe_b s)) /\
     s_type (relay_state unsafe_b s) = s_type s /\ s_value (relay_state unsafe_b s) = s_value s /\
     s_parents (relay_state unsafe_b s) = s_parents s.
 Proof.
-  intros I. destruct (failure_fits unsafe_c e) as (s & G & OK & _). exists s. split; [exact G|].
-  destruct (relay_fits unsafe_b s (sent_type_has_dot _ _ _ G I) OK) as (OK' & T & V & P).
+  intros HT HP I. destruct (failure_fits unsafe_c e ty pa HT HP) as (s & G & OK & _). exists s. split; [exact G|].
+  destruct (relay_fits unsafe_b s (sent_type_has_dot _ _ _ _ G HT I) OK) as (OK' & T & V & P).
   split; [unfold relayed_report; rewrite G, OK, OK'; reflexivity|]. auto.
 Qed.
 
